@@ -161,6 +161,26 @@ def vmodelStep (o : Opts) (isComponent : Bool) (argument transformed modifiers :
     | (_, _, e) => (nComputed (nBin "+" (nStr "onUpdate") e), { acc with hasDynamicKeys := true })
   { acc with props := acc.props ++ [nKV lkey (nModelListener value)] }
 
+/-- hydration-event fact of a non-constant plain attribute -/
+def hydrationStep (isComponent : Bool) (attrName : String) (acc : AttrAcc) : AttrAcc :=
+  if !isComponent && isOn attrName.toList && !eqIgnoreAsciiCase attrName "onclick" && attrName != "onUpdate:modelValue"
+  then { acc with hasHydration := true } else acc
+
+/-- class / style / dynamic-prop fact of a non-constant plain attribute -/
+def coverStep (isComponent : Bool) (attrName : String) (acc : AttrAcc) : AttrAcc :=
+  if attrName == "class" && !isComponent then { acc with hasClass := true }
+  else if attrName == "style" && !isComponent then { acc with hasStyle := true }
+  else if attrName == "key" || attrName == "ref" then acc
+  else { acc with dynamicProps := insertUnique attrName acc.dynamicProps }
+
+/-- patch-flag analysis of one plain attribute -/
+def plainAttrFlags (isComponent : Bool) (attrName : String) (valueN : Node) (isTransformOn : Bool) (acc : AttrAcc) : AttrAcc :=
+  if isTransformOn then { acc with hasDynamicKeys := true }
+  else if attrName == "ref" then { acc with hasRef := true }
+  else if !(if isNone valueN then false else isAttrValueConstant valueN) then
+    coverStep isComponent attrName (hydrationStep isComponent attrName acc)
+  else acc
+
 /-- one step of the fold in `transform_attrs` -/
 def attrStep (o : Opts) (isComponent : Bool) (a : Node) (acc : AttrAcc) (st : St) : AttrAcc × St :=
   match a with
@@ -185,19 +205,9 @@ def attrStep (o : Opts) (isComponent : Bool) (a : Node) (acc : AttrAcc) (st : St
         | .ns ns n => ns ++ ":" ++ n
         | .bad => ""
       let (attrValue, st) := attrValueExpr valueN st
-      let acc :=
-        if attrName == "ref" then { acc with hasRef := true }
-        else if !(if isNone valueN then false else isAttrValueConstant valueN) then
-          let acc :=
-            if !isComponent && isOn attrName.toList && !eqIgnoreAsciiCase attrName "onclick"
-                && attrName != "onUpdate:modelValue"
-            then { acc with hasHydration := true } else acc
-          if attrName == "class" && !isComponent then { acc with hasClass := true }
-          else if attrName == "style" && !isComponent then { acc with hasStyle := true }
-          else if attrName == "key" || attrName == "on" || attrName == "ref" then acc
-          else { acc with dynamicProps := insertUnique attrName acc.dynamicProps }
-        else acc
-      if o.transformOn && (attrName == "on" || attrName == "nativeOn") then
+      let isTransformOn := o.transformOn && (attrName == "on" || attrName == "nativeOn")
+      let acc := plainAttrFlags isComponent attrName valueN isTransformOn acc
+      if isTransformOn then
         let (helper, st) :=
           match st.transformOnHelper with
           | some h => (h, st)
